@@ -10,6 +10,14 @@ from .. import env, mk, runner, budget
 from ..graphs import pairs, edges_of, Ref, dag_masks
 
 PROP = 'C13'
+
+MANIFEST = dict(
+    category='exploration',
+    design_ref='DESIGN.md §3 C13, §2.6',
+    technique='bounded-exhaustive enumeration of all labelled hypernym digraphs (n<=4, DAGs n=5) on the real code vs a reference graph model',
+    text='Every labelled digraph up to the node bound (self-loops, cycles, edge typings, pos colourings, hyponym-declaration modes) is loaded into the real SQLite store and every taxonomy function is compared with a plain-Python reference on every node / ordered pair / simulate_root value; termination is decided by a step budget counted in relation queries. Exhaustive within the bound, nothing sampled.',
+    note='lowest_common_hypernyms and simulate_root distances are compared exactly on DAGs only (depth is not a function of the node on cyclic graphs); graphs with >=6 nodes and the "random larger" half of the quantifier are outside the bound.',
+)
 BATCH = 128
 K_CYCLIC_TD = 'taxonomy_depth:underreports-on-cyclic-graph'
 
